@@ -32,10 +32,14 @@ Inductive op :=
 | OpRenameTable
 | OpAddColumn
 | OpDropColumn (mssql_drop_default mssql_drop_check mssql_drop_foreign_key : bool)
-| OpAlterColumn (r:areq).
+| OpAlterColumn (r:areq)
+| OpCreateTableComment                  (* impl.create_table_comment(table): SQLAlchemy's SetTableComment *)
+| OpDropTableComment                    (* impl.drop_table_comment(table): SQLAlchemy's DropTableComment *)
+| OpAddColumnComment.                   (* op.add_column of a Column carrying a comment *)
 
 (* the names an operation is called with *)
-Record names := mkNames { n_schema : option str; n_table : str; n_newtable : str; n_column : str; n_newcolumn : str }.
+Record names := mkNames { n_schema : option str; n_table : str; n_newtable : str; n_column : str; n_newcolumn : str;
+                          n_flags : flags }.   (* the quoted_name flags travel with the name objects *)
 
 (* one construct as built by the impl: its kind and the names it is GIVEN (positional / keyword arguments of the
    Python constructor call; a slot that is not a parameter of that constructor is filled from the operation) *)
@@ -124,12 +128,21 @@ Definition plan (d:dialect) (o:op) : list pstep :=
        | _ => []
        end)
       ++ [alter CDropColumn (n_table n) (n_column n) (n_schema n)]   (* DropColumn(table_name, column, schema=schema) *)
+  | OpCreateTableComment => [alter (CForeign FSetTableComment) (n_table n) (n_column n) (n_schema n)]
+  | OpDropTableComment => [alter (CForeign FDropTableComment) (n_table n) (n_column n) (n_schema n)]
+  | OpAddColumnComment =>
+      alter (CAddColumn false) (n_table n) (n_column n) (n_schema n)
+      :: (* dialect.supports_comments and not dialect.inline_comments: impl.create_column_comment(column) *)
+         (match family d with
+          | Postgresql | Oracle | Mssql => [alter (CForeign FSetColumnComment) (n_table n) (n_column n) (n_schema n)]
+          | _ => []
+          end)
   | OpAlterColumn r =>
-      match d with
+      match family d with                  (* MariaDBImpl is MySQLImpl *)
       | Postgresql => pg_alter r
       | Mysql => mysql_alter r
       | Mssql => mssql_alter r
-      | Sqlite | Oracle => default_alter (r_nullable r) (r_default r) (r_rename r) (r_type r) (r_comment r)
+      | Sqlite | Oracle | Mariadb => default_alter (r_nullable r) (r_default r) (r_rename r) (r_type r) (r_comment r)
       end
   end.
 End Dispatch.
@@ -142,20 +155,20 @@ Record ostep := mkO {
   o_out : c14_out
 }.
 
-Definition step_env (table column:str) (schema:option str) (newname newtable:str) (opq:list str) : env :=
-  mkEnv schema table newtable column newname opq.
+Definition step_env (fl:flags) (table column:str) (schema:option str) (newname newtable:str) (opq:list str) : env :=
+  mkEnv schema table newtable column newname opq fl.
 
-Fixpoint run_plan (d:dialect) (opqs:list (list str)) (p:list pstep) : list ostep * option c14_err :=
+Fixpoint run_plan (d:dialect) (fl:flags) (opqs:list (list str)) (p:list pstep) : list ostep * option c14_err :=
   match p with
   | [] => ([], None)
   | SRaise e :: _ => ([], Some e)
   | SEmit c t col sc nn nt :: r =>
-      let out := emit_stmt (d, c, step_env t col sc nn nt (hd [] opqs)) in
+      let out := emit_stmt (d, c, step_env fl t col sc nn nt (hd [] opqs)) in
       match out with
       | OutErr _ => ([mkO c t col sc nn nt out], None)
-      | OutSql _ _ => let '(l, e) := run_plan d (tl opqs) r in (mkO c t col sc nn nt out :: l, e)
+      | OutSql _ _ => let '(l, e) := run_plan d fl (tl opqs) r in (mkO c t col sc nn nt out :: l, e)
       end
   end.
 
 Definition run_op (d:dialect) (o:op) (n:names) (opqs:list (list str)) : list ostep * option c14_err :=
-  run_plan d opqs (plan n d o).
+  run_plan d (n_flags n) opqs (plan n d o).
